@@ -21,22 +21,22 @@ def reach(state):
         return []
     if state in ('Sta2', 'Sta3', 'Sta6', 'Sta7', 'Sta13'):
         r = scen.Runner('acceptor', react)
-        r.settle()
+        r.settle(4000)
         if state == 'Sta2':
             return r, told
-        r.feed(scen.rq_pdu().encode()); r.settle()
+        r.feed(scen.rq_pdu().encode()); r.settle(4000)
         if state == 'Sta3':
             return r, told
         if state == 'Sta13':
-            r.user(pdu.AAssociateRjPDU(1, 1, 1)); r.settle()
+            r.user(pdu.AAssociateRjPDU(1, 1, 1)); r.settle(4000)
             told['ended'] = True
             return r, told
-        r.user(scen.ac_pdu()); r.settle()
+        r.user(scen.ac_pdu()); r.settle(4000)
         if state == 'Sta7':
-            r.user(pdu.AReleaseRqPDU()); r.settle()
+            r.user(pdu.AReleaseRqPDU()); r.settle(4000)
         return r, told
     r = scen.Runner('requester', react)
-    r.user(scen.rq_pdu()); r.settle()
+    r.user(scen.rq_pdu()); r.settle(4000)
     assert r.p.state == 5, r.p.state
     told['assoc'] = True          # the user asked for the association
     return r, told
@@ -83,14 +83,14 @@ def run_one(args):
         for seg in (stream[:cut], stream[cut:]):
             if seg and not r.sock.closed:
                 r.feed(seg)
-                r.settle()
+                r.settle(4000)
         mid_state = r.p.state
         if tail_eof and not r.sock.closed:
             r.feed('EOF')
-            r.settle()
+            r.settle(4000)
         if r.p.state in (2, 13) and not r.tr.crash and not r.tr.blocked:
             r.advance(11)
-            r.settle()
+            r.settle(4000)
         s = r.summary()
         return (None, {'crash': s['crash'], 'blocked': s['blocked'], 'state': s['state'], 'closed': s['closed'],
                        'sock_none': s['sock_none'], 'sent': s['sent'][base_sent:], 'inds': s['inds'][base_inds:],
